@@ -139,6 +139,11 @@ func faultsFor(fc *FieldCase) []dataFault {
 		add("wrong length for a fixed-size array", p, []interface{}{uint64(1)}, p)
 		add("wrong length for a fixed-size array", p, []interface{}{uint64(1), uint64(2), uint64(3)}, p)
 		add("wrong type inside a list", p+".1", "zz", p+".1")
+	case KPMInt:
+		if _, ok := fc.In.(map[string]interface{})["p"]; ok {
+			add("wrong type inside a map", p+".p", "zz", p+".p")
+		}
+		add("primitive where an object is expected", p, uint64(5), p)
 	case KMInt, KMVInt:
 		add("wrong type inside a map", p+".p", "zz", p+".p")
 	case KMSlice:
